@@ -307,7 +307,8 @@ package martian
 //@ ghostset nMITM() := old(nMITM()) + 1
 //@ requires p != nil && p.Proxy != nil && p.conn != nil && p.brw != nil && p.brw.Writer != nil && p.brw.Reader != nil && p.MITMConfig != nil && req != nil && req.Method == "CONNECT" && req.URL != nil
 //@ modifies *, nWrote(), wroteStatus(), sawClosing(), wrotePA(), wErr(), nMITM()
-//@ preserves Proxy.* http.Request.Method
+//@ preserves Proxy.* http.Request.Method proxyConn.Proxy proxyConn.brw bufio.ReadWriter.*
+//@ ensures p.conn != nil
 //@ ensures nWrote() == old(nWrote()) + 1 || (sawClosing() && nWrote() == old(nWrote()))
 //@ ensures upstream() == old(upstream())
 
@@ -320,7 +321,8 @@ package martian
 //@ property C13 C04 C07
 //@ requires p != nil && p.Proxy != nil && p.conn != nil && p.brw != nil && p.brw.Writer != nil && p.brw.Reader != nil && req != nil && req.Method == "CONNECT" && req.URL != nil && req.Header != nil
 //@ modifies *, nWrote(), wroteStatus(), sawClosing(), modReqFailed(), upstream(), wrotePA(), wErr(), nMITM()
-//@ preserves Proxy.*
+//@ preserves Proxy.* proxyConn.Proxy proxyConn.brw bufio.ReadWriter.*
+//@ ensures p.conn != nil
 //@ ensures nWrote() == old(nWrote()) + 1 || (sawClosing() && nWrote() == old(nWrote()))
 //@ ensures !(old(p.MITMConfig) != nil && (old(p.MITMFilter) == nil || filterSays(old(p.MITMFilter), req))) ==> nMITM() == old(nMITM())
 //@ ensures nMITM() == old(nMITM()) || nMITM() == old(nMITM()) + 1
@@ -334,6 +336,8 @@ package martian
 //@ property C13 C04 C11
 //@ requires p != nil && p.Proxy != nil && p.conn != nil && p.brw != nil && p.brw.Writer != nil && p.brw.Reader != nil
 //@ modifies *, nRead(), nWrote(), wroteStatus(), sawClosing(), modReqFailed(), upstream(), readOK(), wrotePA(), wErr(), nMITM()
+//@ preserves Proxy.* proxyConn.Proxy proxyConn.brw bufio.ReadWriter.*
+//@ ensures p.conn != nil
 //@ ensures nRead() == old(nRead()) + 1
 //@ ensures readOK() && !sawClosing() ==> nWrote() == old(nWrote()) + 1
 //@ ensures !readOK() ==> nWrote() == old(nWrote()) && upstream() == old(upstream())
@@ -451,3 +455,60 @@ package martian
 //@ requires len(cc) == 2 && drained(cc[0].dst)
 //@ modifies *
 //@ preserves proxyConn.Proxy proxyConn.brw proxyConn.conn Proxy.* bufio.ReadWriter.* http.Response.StatusCode http.Response.Request http.Request.Method
+
+// ---- connection lifetime (C11): what one connection's goroutine does ----
+
+// (construction and the optional TLS handshake of a served connection)
+//@ func newProxyConn
+//@ trusted
+//@ modifies *
+//@ preserves Proxy.*
+//@ ensures result != nil && result.Proxy == p && result.conn == conn && result.brw != nil && result.brw.Writer != nil && result.brw.Reader != nil
+//@ func (*proxyConn).maybeHandshakeTLS
+//@ trusted
+//@ modifies *
+//@ preserves Proxy.* proxyConn.Proxy proxyConn.brw proxyConn.conn bufio.ReadWriter.*
+
+// handleLoop: whatever happens - shutdown already begun, handshake failure,
+// client gone, errors - the socket is closed exactly once, the connection is
+// taken out of the registry and the open-connection counter is back where it
+// was; once shutdown has begun no request is read from the connection.
+//@ func (*Proxy).handleLoop
+//@ property C11 C13
+//@ requires p != nil && conn != nil && p.conns != nil
+//@ modifies *, nConnClose(conn), a32(p.connsWg), nRead(), nWrote(), wroteStatus(), sawClosing(), modReqFailed(), upstream(), readOK(), wrotePA(), wErr(), nMITM()
+//@ ensures nConnClose(conn) == old(nConnClose(conn)) + 1
+//@ ensures a32(p.connsWg) == old(a32(p.connsWg))
+//@ ensures !(conn in p.conns)
+//@ loop 0:
+//@   invariant p != nil && pc != nil && pc.Proxy == p && pc.conn != nil && pc.brw != nil && pc.brw.Writer != nil && pc.brw.Reader != nil
+//@   invariant p.conns == old(p.conns) && p.conns != nil
+//@   invariant nConnClose(conn) == old(nConnClose(conn)) && a32(p.connsWg) == old(a32(p.connsWg)) + 1
+
+// (the deferred registry clean-up of handleLoop)
+//@ func (*Proxy).handleLoop$1
+//@ property C11
+//@ requires p != nil && p.conns != nil
+//@ modifies p.conns[*]
+//@ ensures !(conn in p.conns)
+
+//@ ghost fn ctxErr(context.Context) error
+//@ func (context.Context).Err as (c context.Context) (result error)
+//@ trusted
+//@ pure
+//@ ensures result == ctxErr(c)
+
+// Shutdown: success is reported only when the open-connection counter was read
+// as zero (the polling, the timer and the context are outside the model).
+// (lazy initialisation of the registry; the jitter closure computes a duration)
+//@ func (*Proxy).init
+//@ trusted
+//@ modifies *
+//@ pure martian.Shutdown$2 (*martian.Proxy).Shutdown$2
+//@ func (*Proxy).Shutdown
+//@ property C11
+//@ requires p != nil && ctx != nil
+//@ modifies **
+//@ ensures result == nil ==> a32(p.connsWg) == 0 || ctxErr(ctx) == nil
+//@ loop 0:
+//@   invariant p == old(p) && p != nil && timer != nil
